@@ -41,7 +41,13 @@ let () = each_line (fun l ->
       if not ok then fails := ("raw_" ^ names.([| 0; 2; 4; 5 |].(i))) :: !fails) rs;
     if not (prepared_lang a b sa sb) then fails := "sanitize_lang" :: !fails;
     if not (ta_same a ia && ta_same b ib) then fails := "operand_changed" :: !fails;
+    (* upward inclusion with work list + antichain of processed pairs incl. the refine step (proved exact) and its variant whose work list has no
+       tie-break on the macro-state (refuted); medium pairs only: every step recomputes the consequences of the processed set *)
+    let wmid = List.length a.rules <= 8 && List.length b.rules <= 10 in
+    let wl_model = if wmid then up_worklist a b (nat_of_int 300) else None in
+    let keyed_model = if wmid then up_worklist_keyed a b (nat_of_int 300) else None in
     let drift = (if prepared_shape sa sb n then [] else ["sanitize_shape"]) @ (if up_ac a b = truth then [] else ["antichain_model"])
+      @ (match wl_model with Some v -> if v = truth then [] else ["up_worklist_model"] | None -> [])
       @ (match down_model with Some v -> if v = truth then [] else ["down_model"] | None -> [])
       @ (match cache_model with Some v -> if v = truth then [] else ["down_cache_model"] | None -> [])
       @ (if List.exists (fun v -> v = "Ecrash") qs then ["untrimmed_sim_crash"] else [])
@@ -54,5 +60,6 @@ let () = each_line (fun l ->
     ^ (if a.rules <> [] && a.rules = b.rules then " shared_table" else "")
     ^ (match shared_model with Some v when v <> truth -> " discriminates_shared_cache" | _ -> "")
     ^ (match careless_model with Some v when v <> truth -> " discriminates_careless_promotion" | _ -> "")
+    ^ (match keyed_model with Some v when v <> truth -> " discriminates_keyed_worklist" | _ -> "")
     ^ (if small then (match down_model with None -> " down_model_out_of_fuel" | Some _ -> " down_model_run") else "")
   | _ -> "FAIL exception " ^ o)
